@@ -12,7 +12,7 @@
     len(atom_types) > 0   : types as given, atom_type_elements     `typesOf`, `elemsOf`   (first branch)
     elif len(elements) > 0: table = dict.fromkeys(elements),       `dedup`, `indexOf?`    (second branch)
                             types = [table.index(s) for s in …]
-    else                  : no types, no element table             (third branch)
+    else                  : no types, atom_type_elements as passed  (third branch; since 84d3f69 the table is kept)
     masses from ATOMIC_MASSES when none are passed and the          `massesOf`  (unknown element: KeyError → "key")
        element table is non-empty
     labels: as given when non-empty, else the element table        `labelsOf`
@@ -116,7 +116,7 @@ def typesOf (k : CtorArgs) : List Nat :=
 def elemsOf (k : CtorArgs) : List String :=
   if !k.atomTypes.isEmpty then k.typeElems
   else if !k.elements.isEmpty then dedup k.elements
-  else []
+  else k.typeElems     -- no atoms: the passed type elements are kept (since 84d3f69; masses / labels follow from them)
 
 /-- `self.atom_type_masses`; `none` = KeyError -/
 def massesOf (massOf : String → Option Rat) (k : CtorArgs) : Option (List Rat) :=
